@@ -358,6 +358,10 @@ pub fn spec() -> PropSpec {
         checks: vec![
             PropCheck::new("deserializer-valid", |_| deser_case(false), 40_000, 1_000_000, eval),
             PropCheck::new("deserializer-mutated", |_| deser_case(true), 50_000, 1_500_000, eval),
+            PropCheck::new("deserializer-kilobyte-chunks", |_| {
+                let src = prop_oneof![gen::msg_seq_large(5).prop_map(Source::Library), gen::foreign_ops_large(5).prop_map(Source::Foreign)];
+                (src, prop_oneof![3 => Just(Vec::new()), 1 => proptest::collection::vec(mutation(), 1..3)], gen::partition_large(), gen::partition_large()).prop_map(|(source, mutations, c, d)| Case { source, mutations, c, d }).boxed()
+            }, 3_000, 100_000, eval),
             PropCheck::new("sessions", |_| session_case(), 15_000, 500_000, eval_session),
             crate::targets::corpus_check(&["split"]),
         ],
